@@ -76,6 +76,21 @@ def run(ctx):
 
 
 def crc_xmodem(data):
+    crc = crc_xmodem_(data)
+    if len(data) <= 6000:
+        vlib.spec_tie('xmodem ' + vlib.hexs(data), str(crc))
+    return crc
+
+
+def spec_title(raw):
+    """the 12-character title as shown: NUL-terminated, 7-bit, trailing spaces removed (tied to Beeb.Spec.title)"""
+    t12 = (bytes(raw) + b'\0' * 12)[:12]
+    t = bytes(b & 0x7F for b in bytes(raw).split(b'\0')[0][:12]).rstrip(b' ')
+    vlib.spec_tie('title %s %s' % (vlib.hexs(t12[:8]), vlib.hexs(t12[8:])), vlib.hexs(t))
+    return t
+
+
+def crc_xmodem_(data):
     crc = 0
     for b in data:
         crc ^= b << 8
@@ -85,7 +100,9 @@ def crc_xmodem(data):
 
 
 def sign_ext(a):
-    return a | 0xFC0000 if a & 0x20000 else a
+    r = a | 0xFC0000 if a & 0x20000 else a
+    vlib.spec_tie('signext %d' % a, str(r))
+    return r
 
 
 def lower(c):
@@ -95,7 +112,15 @@ def lower(c):
 def cat_order(files, curdir):
     def key(f):
         return (0 if f.dir == curdir else lower(f.dir), bytes(map(lower, f.shown_name())))
-    return sorted(files, key=key)
+    out = sorted(files, key=key)
+    # tied to Beeb.Spec.catBefore: no later entry may come before an earlier one (adjacent pairs and a few distant ones)
+    for j in range(len(out) - 1):
+        for k in (j + 1, len(out) - 1):
+            a, b = out[j], out[k]
+            strict = key(a) != key(b)
+            vlib.spec_tie('catbefore %d %d %s %d %s' % (curdir, a.dir, vlib.hexs(a.shown_name()), b.dir, vlib.hexs(b.shown_name())), '1' if strict else '0')
+            vlib.spec_tie('catbefore %d %d %s %d %s' % (curdir, b.dir, vlib.hexs(b.shown_name()), a.dir, vlib.hexs(a.shown_name())), '0')
+    return out
 
 
 def run_e2e(ctx):
@@ -151,7 +176,7 @@ def run_e2e(ctx):
                 ctx.violation('cat-failed', 'cat failed on a well-formed disc (exit %d)' % i['exit'], common.replay_of(c))
                 continue
             lines = out.split(b'\n')
-            title = bytes(b & 0x7F for b in m['cat'].title.split(b'\0')[0][:12]).rstrip(b' ')
+            title = spec_title(m['cat'].title)
             head = lines[0].strip(b' ') if lines else b''
             if not head.startswith(title):
                 ctx.violation('cat-title', 'cat shows title %r, catalogue title is %r' % (head[:14], title), common.replay_of(c))
@@ -195,7 +220,7 @@ def run_e2e(ctx):
         elif m['kind'] == 'titles':
             want = b''
             for (label, origin, vlen, cats) in m['d'].volumes():
-                t = bytes(b & 0x7F for b in cats[0].title.split(b'\0')[0][:12]).rstrip(b' ')
+                t = spec_title(cats[0].title)
                 want += b'0%s: %s\n' % ((label or '').encode(), t)
             if i['exit'] != 0 or i['out'] != want:
                 ctx.violation('show-titles', 'show-titles printed %r, catalogue titles are %r' % (i['out'][:80], want[:80]), common.replay_of(c))
